@@ -9,7 +9,7 @@ existing = [int(os.path.basename(d).split("-")[1]) for d in glob.glob("/verif/se
 existing += [int(os.path.basename(d)) for d in glob.glob("/verif/seeded/_candidates/%s/[0-9]*" % pid)]
 k = max(existing + [0])
 subprocess.run(["git", "-C", "/repo", "worktree", "remove", "--force", "/tmp/wt/" + tag], capture_output=True)
-for d in sorted(glob.glob(src + "/[0-9]")):
+for d in sorted(glob.glob(src + "/[0-9]*")):
     if not os.path.exists(d + "/patch.diff") or not os.path.exists(d + "/demo.rs"):
         print("skip (incomplete):", d); continue
     k += 1
